@@ -154,7 +154,11 @@ impl Gene {
             n.try_into().expect("unable to convert {n} to u32")
         }
         let name = self.name().as_bytes();
-        let name_length = std::cmp::min(name.len(), 255);
+        let mut name_length = std::cmp::min(name.len(), 255);
+        // do not cut a multi-byte character in half, the result must be valid UTF-8
+        while !self.name().is_char_boundary(name_length) {
+            name_length -= 1;
+        }
         let size = 4 + 4 + 1 + name_length + 4 + self.hpos.len() * 4;
 
         let mut res = Vec::new();
@@ -171,7 +175,7 @@ impl Gene {
         res.push(name_length as u8);
 
         // Gene name/symbol (up to 255 bytes)
-        for c in name.iter().take(255) {
+        for c in name.iter().take(name_length) {
             res.push(*c);
         }
 
